@@ -124,6 +124,7 @@ int main(void)
     printf("INFO features avx2=%d ssse3=%d sse2=%d aesni=%d\n", sodium_runtime_has_avx2(), sodium_runtime_has_ssse3(), sodium_runtime_has_sse2(), sodium_runtime_has_aesni());
     vf_pat(seed, 32, PAT_R1, 400); crypto_sign_seed_keypair(pkA, skA, seed);
     vf_parallel(16, 0, 1201, alias_len, fin);
+    { static const long BIG[] = { 4095, 4096, 4097, 8193, 16385, 65535, 65537, 131073, 1048577 }; unsigned b; for (b = 0; b < sizeof BIG / sizeof BIG[0]; b++) alias_len(BIG[b]); fin(); }
     vf_parallel(16, 0, (long) MAXL + 1, overlap_len, fin);
     vf_sample("crypto_secretbox_detached len=96 with c = m - 47 (output starts 47 bytes below the message, buffers overlap)");
     vf_sample("crypto_box_easy len=200 with c = m + 16 .. m + 80 and c = m - 80 .. m - 1");
